@@ -16,7 +16,7 @@ DumpOK(ev) ==
   /\ ParseOK(ev)
 TwoOK(ev) == ev.ra = ParseAll(ev.sa) /\ ev.rb = ParseAll(ev.sb)          \* interleaved sessions do not disturb each other
 BigOK(ev) == /\ ev.ret = ev.n /\ ev.outlen = 2 * ev.n + ((ev.n + 15) \div 16)      \* 16 pairs per line, newline after a final partial line
-             /\ ev.shape = 1 /\ ev.back = 1
+             /\ ev.shape = 1 /\ ev.back \in {1, 2}        \* 2: parse-back not run for this length (driver samples it; it is quadratic)
 TraceInit == ti = 1
 TraceNext == /\ ti <= Len(T) /\ ti' = ti + 1
              /\ LET ev == T[ti] IN CASE ev.e = "Parse" -> ParseOK(ev) [] ev.e = "Dump" -> DumpOK(ev) [] ev.e = "Two" -> TwoOK(ev) [] ev.e = "BigDump" -> BigOK(ev) [] OTHER -> FALSE
